@@ -476,6 +476,10 @@ func (s ttxStream) render() ([]byte, []ttxExpCue) {
 			// the magazine's default character set is the second Latin row of table 32 (Polish under C12-C14 = 000), announced
 			// once before the first page header of the stream, or before every header; no X/28 contradicts it
 			units = append(units, designationUnit(s.Mag, 29, 0, 0, 0, 1))
+			if s.Enhancement {
+				// and right after it, another magazine announces a Cyrillic default: none of this page's business
+				units = append(units, designationUnit(otherMag, 29, 0, 0, 0, 4))
+			}
 		}
 		if s.Designation == 3 {
 			// the magazine-wide default (M/29) names the first Cyrillic set, the page's own X/28 names Latin: X/28 wins
